@@ -1,5 +1,318 @@
+"""C18 - input cleaning is total, cell-local and never alters the caller's table."""
 from .. import AnalysisBroken
+from ..cond import compare_trees
+from ..constfold import NotConstant, module_const, unroll
+from ..eff import Effects
+from ..rules import Equiv, canon_binders, canon_params, check_equiv, close_loops, guards_imply, lift_ite, rewrite, std_rewrites, where_of
+from ..ssa import leaves
+from ..terms import FALSE, NONE, TRUE, const, head, is_const, show, strip, strip_all, subst, walk
+
+CLAIMED = True
+LEVEL = "other"
+TECHNIQUE = "may-raise analysis of partial operations against enclosing handlers / guards; truth-table equivalence of the predicates; effect analysis; finite-domain unrolling of the column loops with per-column comparison of the standardiser lambdas; decision-table comparison of argument errors and merge forms"
+TEXT = ("Decides that isvalidaa / isvalidcdr3 are total over builtin objects (every partial operation - iteration, set membership, subscripting with "
+        "0 / -1 - either sits under a handler that catches the exception classes it can raise, or under guards that exclude them) and that every "
+        "return path yields a bool; that for strings isvalidaa is all(c in S) with S folded to exactly the 20 amino-acid letters and isvalidcdr3 is "
+        "isvalidaa and first == 'C' and last in {F, W, C}, False on the empty string; that standardize_dataframe writes only to a fresh copy of "
+        "its input, only to the nine standard columns, each store having the form T[col] = T[col].map(lambda x: None if pd.isna(x) else "
+        "<standardiser>) with the documented standardiser and option forwarding per column family, all stores being control-dependent on "
+        "`standardize` and on the column being present; that df / df_old exclusivity and missing-argument errors precede any use; that multimerge "
+        "merges with how='outer' overridable by kwargs in a fresh dict, on the index or the named column, with '_' + suffix column suffixes. "
+        "Grade A for totality / purity / glue; what tidytcells returns for a cell is trusted.")
+NOTE = "Trusted: tidytcells standardisers are functions of their arguments; pandas Series.map applies f per cell and keeps index and order; DataFrame.copy / rename / set_index / add_suffix return new frames; functools.reduce folds left to right."
+
+Q = "pyrepseq.io."
+AA20 = set("ACDEFGHIKLMNPQRSTVWY")
+STD_COLS = {"TRAV", "CDR3A", "TRAJ", "TRBV", "CDR3B", "TRBJ", "Epitope", "MHCA", "MHCB"}
+
+SPEC = '''
+def standardize_dataframe(df=None, col_mapper=None, standardize=True, species="HomoSapiens", tcr_enforce_functional=True, tcr_precision="gene",
+                          mhc_precision="gene", strict_cdr3_standardization=False, suppress_warnings=False, df_old=None):
+    T = TABLE
+    for col in ("CDR3A", "CDR3B"):
+        T[col] = T[col].map(lambda x: None if pd.isna(x) else tt.junction.standardize(seq=x, strict=strict_cdr3_standardization, suppress_warnings=suppress_warnings))
+    for col in ("TRAV", "TRAJ", "TRBV", "TRBJ"):
+        T[col] = T[col].map(lambda x: None if pd.isna(x) else tt.tr.standardize(gene=x, species=species, enforce_functional=tcr_enforce_functional, precision=tcr_precision, suppress_warnings=suppress_warnings))
+    for col in ("MHCA", "MHCB"):
+        T[col] = T[col].map(lambda x: None if pd.isna(x) else tt.mh.standardize(gene=x, species=species, precision=mhc_precision, suppress_warnings=suppress_warnings))
+    T["Epitope"] = T["Epitope"].map(lambda x: None if pd.isna(x) else tt.aa.standardize(seq=x, on_fail="keep", suppress_warnings=suppress_warnings))
+
+def args(df=None, col_mapper=None, standardize=True, species="HomoSapiens", tcr_enforce_functional=True, tcr_precision="gene",
+         mhc_precision="gene", strict_cdr3_standardization=False, suppress_warnings=False, df_old=None):
+    if df_old is not None and df is not None:
+        raise ValueError("exclusive")
+    if df_old is None and df is None:
+        raise ValueError("missing")
+    return RESULT
+
+def multimerge(dfs, on, suffixes=None, **kwargs):
+    merge_kwargs = dict(how="outer")
+    merge_kwargs.update(kwargs)
+    if suffixes:
+        dfs_new = []
+        for df, suffix in zip(dfs, suffixes):
+            if not on == "index":
+                df = df.set_index(on)
+            dfs_new.append(df.add_suffix("_" + suffix))
+        return reduce(lambda left, right: pd.merge(left, right, right_index=True, left_index=True, **merge_kwargs), dfs_new)
+    if on == "index":
+        return reduce(lambda left, right: pd.merge(left, right, right_index=True, left_index=True, **merge_kwargs), dfs)
+    return reduce(lambda left, right: pd.merge(left, right, on, **merge_kwargs), dfs)
+
+def cdr3pred(string):
+    return isvalidaa(string) and string[0] == "C" and string[-1] in ["F", "W", "C"]
+'''
+
+# exception classes a partial operation can raise on an arbitrary builtin object
+MAY_RAISE = {"iterate": {"TypeError"}, "member": {"TypeError"}, "subscript": {"TypeError", "IndexError", "KeyError"}}
+CATCH_ALL = {"builtins.Exception", "builtins.BaseException"}
+
+
+def _handled(s, tid):
+    for e in s.events_of("try"):
+        if e["tid"] == tid:
+            out = set()
+            for h in e["handled"]:
+                h = strip(h)
+                if h == NONE:
+                    return None        # bare except
+                hs = h[1] if head(h) == "tuple" else (h,)
+                for x in hs:
+                    x = strip(x)
+                    if head(x) == "glob":
+                        if x[1] in CATCH_ALL:
+                            return None
+                        out.add(x[1].split(".")[-1])
+                        if x[1] == "builtins.LookupError":
+                            out |= {"IndexError", "KeyError"}
+            return out
+    return set()
+
+
+def check_total(r, q, param_index=0):
+    """Every partial operation on the argument is covered by a handler or excluded by guards; all leaves are bool."""
+    rep = r.rep
+    s = r.A.summary(q)
+    rep.analysed(q)
+    p = ("param", s.params[param_index][0])
+    ops = []
+    for e in s.events_of("load_sub"):
+        if strip(e["obj"]) == p:
+            ops.append(("subscript", e, f"{p[1]}[{show(e['index'], 10)}]"))
+    # iteration / membership inside comprehensions: from the return term
+    for x in walk(s.ret):
+        if head(x) == "citer" and strip(x[3]) == p:
+            ops.append(("iterate", None, f"for c in {p[1]}"))
+        if head(x) == "cmp" and x[1] in ("in", "notin") and any(head(y) == "citer" and strip(y[3]) == p for y in walk(x[2])):
+            ops.append(("member", None, f"c in {show(x[3], 30)}"))
+    for lp in s.loops.values():
+        if lp.kind == "for" and strip(lp.iterable) == p:
+            ops.append(("iterate", None, f"for c in {p[1]}"))
+    seen = set()
+    n = 0
+    isstr = ("call", ("glob", "builtins.isinstance"), (p, ("glob", "builtins.str")), ())
+    for kind, e, what in ops:
+        if (kind, what) in seen:
+            continue
+        seen.add((kind, what))
+        n += 1
+        need = set(MAY_RAISE[kind])
+        guards = e.ctx.guards if e is not None else ()
+        tries = e.ctx.tries if e is not None else tuple(t["tid"] for t in s.events_of("try"))
+        # a string argument cannot raise TypeError / KeyError here; a non-empty one cannot raise IndexError
+        from ..nnabs import lits
+        glits = [(strip_all(a), pl) for g, pol in guards for a, pl in lits(g, pol)]
+        if any(a == isstr and pl for a, pl in glits):
+            need -= {"TypeError", "KeyError"}
+            ok_len, _ = guards_imply(guards, ("cmp", ">", ("call", ("glob", "builtins.len"), (p,), ()), const(0)))
+            if ok_len:
+                need -= {"IndexError"}
+        for tid in tries:
+            h = _handled(s, tid)
+            if h is None:
+                need = set()
+            else:
+                need -= h
+        w = where_of(r.P, s.func, e.node if e is not None else s.func.node)
+        rep.ob("C18-EX", q, not need, f"{what} cannot raise out of the predicate for any builtin object", w, expected="exception classes " + ", ".join(sorted(MAY_RAISE[kind])) + " caught or excluded by guards",
+               found=("uncaught: " + ", ".join(sorted(need))) if need else "covered", key=f"total {what}")
+    return n
+
+
+def _is_boolish(t):
+    t = strip(t)
+    h = head(t)
+    if is_const(t):
+        return isinstance(t[2], bool)
+    if h == "cmp":
+        return True
+    if h == "un" and t[1] == "not":
+        return True
+    if h in ("and", "or"):
+        return all(_is_boolish(x) for x in t[1])
+    if h == "ite":
+        return _is_boolish(t[2]) and _is_boolish(t[3])
+    if h == "try":
+        return _is_boolish(t[1]) and all(_is_boolish(hd) for _, hd in t[2])
+    if h == "call":
+        f = strip(t[1])
+        return head(f) == "glob" and f[1] in ("builtins.all", "builtins.any", "builtins.bool", "builtins.isinstance", "pyrepseq.io.isvalidaa", "pyrepseq.io.isvalidcdr3")
+    return False
 
 
 def run(r):
-    raise AnalysisBroken("rule set for C18 not implemented yet (fail-closed stub)")
+    rep = r.rep
+    rep.explanation = "Predicates, the standardiser stores (unrolled over their literal column loops), argument errors, merge forms and write sets were analysed and compared with the specification."
+    rep.trust("builtin objects: iteration / set membership raise TypeError only; subscripting with a constant index raises TypeError, IndexError or KeyError only",
+              "pandas Series.map(f) applies f to every cell independently and preserves the index", "tidytcells standardisers are pure functions of their keyword arguments")
+    # ------------------------------------------------------------------ predicates
+    n = check_total(r, Q + "isvalidaa") + check_total(r, Q + "isvalidcdr3")
+    rep.require(n >= 4, f"C18-EX: {n} partial operations analysed, floor is 4")
+    for name in ("isvalidaa", "isvalidcdr3"):
+        s = r.A.summary(Q + name)
+        rep.ob("C18-EX", Q + name, _is_boolish(s.ret), "every return path yields a bool", where_of(r.P, s.func, s.func.node), expected="bool-valued expression on every path", found=show(s.ret, 100), key="bool result")
+        hl = [hd for x in walk(s.ret) if head(x) == "try" for _, hd in x[2]]
+        rep.ob("C18-PRED", Q + name, all(strip(hd) == FALSE for hd in hl), "objects that are not valid strings give False", where_of(r.P, s.func, s.func.node), expected="handler returns False", found=", ".join(show(h, 20) for h in hl) or "no handler", key="handler false")
+    # isvalidaa == all(c in S for c in string), S == the 20 letters
+    s = r.A.summary(Q + "isvalidaa")
+    body = strip(s.ret)
+    body = strip(body[1]) if head(body) == "try" else body
+    p = ("param", s.params[0][0])
+    ok = False
+    found = show(body, 100)
+    if head(body) == "call" and strip(body[1]) == ("glob", "builtins.all") and len(body[2]) == 1 and head(strip(body[2][0])) == "comp":
+        c = strip(body[2][0])
+        elt = strip(c[2])
+        if len(c[3]) == 1 and not c[3][0][1] and strip(c[3][0][0][3]) == p and head(elt) == "cmp" and elt[1] == "in" and strip(elt[2]) == c[3][0][0]:
+            setterm = strip(elt[3])
+            try:
+                val = module_const(r.P, setterm[1]) if head(setterm) == "glob" else (set(x[2] for x in setterm[1]) if head(setterm) in ("set", "list", "tuple") else None)
+            except NotConstant:
+                val = None
+            ok = val is not None and set(val) == AA20
+            found = f"all(c in {sorted(val) if val is not None else show(setterm, 40)})"
+    rep.ob("C18-PRED", Q + "isvalidaa", ok, "isvalidaa(s) == every character of s is one of the 20 amino-acid letters", where_of(r.P, s.func, s.func.node),
+           expected="all(c in set('ACDEFGHIKLMNPQRSTVWY') for c in s)", found=found, key="aa predicate")
+    # isvalidcdr3 on non-empty strings
+    s = r.A.summary(Q + "isvalidcdr3")
+    body = strip(s.ret)
+    body = strip(body[1]) if head(body) == "try" else body
+    sp = r.A.summarize_source(SPEC, "cdr3pred", "pyrepseq.io").ret
+    pcan = canon_params(s)
+    T = lambda t: ("ite", t, TRUE, FALSE)
+    p0 = ("param", "#0")
+    assume = ("and", (("call", ("glob", "builtins.isinstance"), (p0, ("glob", "builtins.str")), ()), ("cmp", ">", ("call", ("glob", "builtins.len"), (p0,), ()), const(0))))
+    m, rows = compare_trees(T(strip_all(subst(body, pcan))), T(strip_all(subst(sp, {("param", "string"): p0}))), lambda a, b: a == b, assume=assume)
+    rep.ob("C18-PRED", Q + "isvalidcdr3", not m, "for a non-empty string: isvalidcdr3(s) == isvalidaa(s) and s[0] == 'C' and s[-1] in {F, W, C}", where_of(r.P, s.func, s.func.node),
+           expected="isvalidaa(s) and s[0] == 'C' and s[-1] in ['F', 'W', 'C']", found=(f"differs when {m[0][0]}" if m else "equivalent"), key="cdr3 predicate")
+    rep.floor("C18-PRED", 4)
+    rep.floor("C18-EX", 6)
+
+    # ------------------------------------------------------------------ standardize_dataframe
+    q = Q + "standardize_dataframe"
+    s = r.A.summary(q)
+    rep.analysed(q)
+    E = Effects(r.P, r.A)
+    for pname in ("df", "df_old"):
+        if pname not in [x[0] for x in s.params]:
+            raise AnalysisBroken(f"{q}: parameter {pname} vanished")
+        rep.ob("C18-PURE", q, pname not in E.mut[q], f"the caller's table '{pname}' is never written to", where_of(r.P, s.func, s.func.node), expected="all stores target a fresh copy",
+               found=E.mut[q][pname][0] if pname in E.mut[q] else "no write", key=f"pure {pname}")
+    mq = Q + "multimerge"
+    ms = r.A.summary(mq)
+    rep.ob("C18-PURE", mq, ms.params[0][0] not in E.mut[mq], "the caller's tables are never written to", where_of(r.P, ms.func, ms.func.node), expected="no write", found=str(E.mut[mq].get(ms.params[0][0], "no write")), key="pure dfs")
+    # stores, unrolled
+    spec = r.A.summarize_source(SPEC, "standardize_dataframe", "pyrepseq.io")
+    pcan = canon_params(s)
+    spcan = canon_params(spec)
+
+    def stores(summ, pc, table_of=None):
+        out = {}
+        tables = set()
+        for e in summ.events_of("setitem"):
+            for asg, (idx, val, obj) in unroll(summ, e, [e["index"], e["value"], e["obj"]]):
+                from ..nnabs import simplify
+                idx, val = simplify(strip_all(idx)), simplify(strip_all(val))
+                tables.add(strip_all(obj))
+                key = idx[2] if is_const(idx) else show(idx, 40)
+                out.setdefault(key, []).append((subst(val, pc), subst(strip_all(obj), pc), e))
+        return out, tables
+    code_st, code_tables = stores(s, pcan)
+    spec_st, _ = stores(spec, spcan)
+    rep.ob("C18-COLS", q, set(code_st) == STD_COLS, "exactly the nine standard columns are rewritten", where_of(r.P, s.func, s.func.node), expected=str(sorted(STD_COLS)), found=str(sorted(code_st)), key="column set")
+    rws = std_rewrites() + [canon_binders]
+    TABLE = ("unbound", "TABLE")
+    for col in sorted(set(code_st) & set(spec_st)):
+        for val, obj, e in code_st[col]:
+            w = where_of(r.P, s.func, e.node)
+            v = subst(val, {obj: TABLE})
+            sv = spec_st[col][0][0]
+            eq = Equiv(rewrites=rws, modelled={"pandas.isna"})
+            check_equiv(rep, "C18-OPT", q, f"column {col}: each cell is None if missing, else the documented tidytcells standardisation with the documented options", v, sv, w, eq=eq, key=f"store {col}")
+            # control dependence
+            gl = [(strip_all(subst(g, pcan)), pol) for g, pol in e.ctx.guards]
+            std = ("param", f"#{[x[0] for x in s.params].index('standardize')}")
+            rep.ob("C18-COLS", q, any(g == std and pol for g, pol in gl), f"column {col} is only touched when standardize is true", w, expected="under `if standardize:`", found="unconditional" if not any(g == std for g, _ in gl) else "ok", key=f"standardize guard {col}")
+    # argument errors
+    asp = r.A.summarize_source(SPEC, "args", "pyrepseq.io")
+    cls_only = lambda t: "raise " + (strip(strip(t)[1])[1][1] if head(strip(t)) == "raise" and head(strip(strip(t)[1])) == "call" else "?") if head(strip(t)) == "raise" else "value"
+    m, rows = compare_trees(lift_ite(strip_all(subst(s.ret, pcan))), lift_ite(strip_all(subst(asp.ret, canon_params(asp)))), lambda a, b: cls_only(a) == cls_only(b))
+    rep.ob("C18-ARG", q, not m, "df and df_old are mutually exclusive and one of them is required (ValueError before any use)", where_of(r.P, s.func, s.func.node),
+           expected="ValueError iff both or neither are given", found=(f"differs when {m[0][0]}: {cls_only(m[0][1])} vs {cls_only(m[0][2])}" if m else "equivalent"), key="argument errors")
+    # result is the copied (and renamed) table
+    resl = [leaf for g, leaf in leaves(lift_ite(strip_all(s.ret))) if head(strip(leaf)) != "raise"]
+    okr = bool(resl) and all(l in code_tables or any(l == t for t in code_tables) for l in resl)
+
+    def fresh_copy(t):
+        t = strip(t)
+        if head(t) == "call" and head(strip(t[1])) == "attr" and strip(t[1])[2] == "rename":
+            return fresh_copy(strip(t[1])[1]) and set(dict(t[3])) == {"columns"}
+        return head(t) == "call" and head(strip(t[1])) == "attr" and strip(t[1])[2] == "copy" and not t[2]
+    rep.ob("C18-COLS", q, all(fresh_copy(l) for l in resl) and bool(resl), "the result is df.copy(), renamed by col_mapper when given (row count, order, index and other columns preserved)", where_of(r.P, s.func, s.func.node),
+           expected="df.copy().rename(columns=col_mapper)", found="; ".join(show(l, 60) for l in resl[:2]), key="result table")
+    rep.floor("C18-OPT", 9)
+    rep.floor("C18-COLS", 11)
+    rep.floor("C18-PURE", 3)
+
+    # ------------------------------------------------------------------ multimerge
+    msp = r.A.summarize_source(SPEC, "multimerge", "pyrepseq.io")
+    code = close_loops(ms, subst(ms.ret, canon_params(ms)))
+    spc = close_loops(msp, subst(msp.ret, canon_params(msp)))
+    eq = Equiv(rewrites=std_rewrites() + [canon_binders], modelled={"functools.reduce", "pandas.merge", "builtins.zip", "builtins.dict"})
+    check_equiv(rep, "C18-MM", mq, "multimerge folds pd.merge over the tables: on the index or the named column, how='outer' overridable by kwargs, '_' + suffix per table", code, spc,
+                where_of(r.P, ms.func, ms.func.node), eq=eq, key="merge forms")
+    rep.floor("C18-MM", 1)
+
+
+from ..selftest import V  # noqa: E402
+
+I = "pyrepseq/io.py"
+VARIANTS = [
+    V("D8-narrow-handler", I, "    except (TypeError, IndexError, KeyError):\n        return False", "    except TypeError:\n        return False", rule="C18-EX"),
+    V("copy-removed", I, "    df_standardized = df.copy()\n", "    df_standardized = df\n", rule="C18"),
+    V("mhc-precision-in-tr", I, "                            precision=tcr_precision,", "                            precision=mhc_precision,", rule="C18-OPT"),
+    V("on_fail-dropped", I, 'seq=x, on_fail="keep", suppress_warnings=suppress_warnings', "seq=x, suppress_warnings=suppress_warnings", rule="C18-OPT"),
+    V("how-inner", I, 'merge_kwargs = dict(how="outer")', 'merge_kwargs = dict(how="inner")', rule="C18-MM"),
+    V("tenth-column", I, '        if "Epitope" in df_standardized.columns:', '        if "Notes" in df_standardized.columns:\n            df_standardized["Notes"] = df_standardized["Notes"].map(lambda x: x)\n        if "Epitope" in df_standardized.columns:', rule="C18-COLS"),
+    V("nan-guard-dropped", I, "                    lambda x: None\n                    if pd.isna(x)\n                    else tt.junction.standardize(\n                        seq=x,", "                    lambda x: tt.junction.standardize(\n                        seq=x,", rule="C18-OPT"),
+    V("cdr3-last-letter-set", I, '(string[-1] in ["F", "W", "C"])', '(string[-1] in ["F", "W"])', rule="C18-PRED"),
+    V("cdr3-first-letter-dropped", I, 'isvalidaa(string) and (string[0] == "C") and', "isvalidaa(string) and", rule="C18-PRED"),
+    V("aminoacids-21-letters", I, 'aminoacids = "ACDEFGHIKLMNPQRSTVWY"', 'aminoacids = "ACDEFGHIKLMNPQRSTVWYX"', rule="C18-PRED"),
+    V("isvalidaa-handler-returns-none", I, "        return all(c in _aminoacids_set for c in string)\n    except TypeError:\n        return False", "        return all(c in _aminoacids_set for c in string)\n    except TypeError:\n        return None", rule="C18"),
+    V("standardize-ignores-flag", I, "    if standardize:\n        for chain in", "    if True:\n        for chain in", rule="C18-COLS"),
+    V("cross-column-map", I, "                df_standardized[cdr3] = df_standardized[cdr3].map(", "                df_standardized[cdr3] = df_standardized[f\"TR{chain}V\"].map(", rule="C18-OPT"),
+    V("suffix-without-underscore", I, 'dfs_new.append(df.add_suffix("_" + suffix))', "dfs_new.append(df.add_suffix(suffix))", rule="C18-MM"),
+    V("exclusive-check-dropped", I, "        if df is not None:\n            raise ValueError(\"`df` and `df_old` are mutually exclusive.\")\n", "", rule="C18-ARG"),
+    V("suppress-warnings-not-forwarded", I, "                        strict=strict_cdr3_standardization,\n                        suppress_warnings=suppress_warnings,", "                        strict=strict_cdr3_standardization,", rule="C18-OPT"),
+    V("silent-isinstance-guard", I, '''    try:
+        return (
+            isvalidaa(string) and (string[0] == "C") and (string[-1] in ["F", "W", "C"])
+        )
+    # if 'string' is not of string type (e.g. nan) or is empty it is not valid
+    except (TypeError, IndexError, KeyError):
+        return False''', '''    if not (isinstance(string, str) and len(string) > 0):
+        return False
+    return isvalidaa(string) and (string[0] == "C") and (string[-1] in ["F", "W", "C"])''', expect="silent"),
+    V("silent-broad-handler", I, "    except (TypeError, IndexError, KeyError):\n        return False", "    except Exception:\n        return False", expect="silent"),
+    V("silent-tuple-of-letters", I, '(string[-1] in ["F", "W", "C"])', '(string[-1] in ("C", "F", "W"))', expect="silent"),
+]
